@@ -107,7 +107,7 @@ def generate(job):
             if k == "fit":
                 ops.append({"k": "fit", "method": ro.choice(FAST), "maxiter": ro.choice([1, 2, 3, 5, 8]), "grad_scale": ro.choice([1.0, 1.0, 2.0]), "jac": ro.choice([True, True, True, True, "2-point"]), "monitor": ro.chance(0.25)})
             elif k == "fit_interrupted":
-                ops.append({"k": "fit_interrupted", "method": ro.choice(["BFGS", "BFGS", "CG", "L-BFGS-B"]), "after": ro.choice([1, 2, 3]), "how": ro.choice(["callback", "callback", "large_number"])})
+                ops.append({"k": "fit_interrupted", "method": ro.choice(["BFGS", "BFGS", "CG", "L-BFGS-B"]), "after": ro.choice([1, 2, 3]), "how": ro.choice(["callback", "callback", "line", "line"]), "pos": ro.choice([300, 3000, 20000, 60000, 150000])})
             elif k == "set_params":
                 ops.append({"k": "set_params", "seed": ro.randrange(1 << 30), "scale": ro.choice([0.3, 1.0])})
             elif k == "reinit":
@@ -378,9 +378,25 @@ class Session:
             if n[0] >= op.get("after", 2):
                 raise Abort()
 
+        from sim.seams import InjectedFault, InjectedInterrupt, LineTracer
+        import sys
+
         try:
-            config.fit([self.data], [self.phsp], method=op.get("method", "BFGS"), maxiter=20, batch=self.spec["batch"], print_init_nll=False, callback=cb)
-            self.log.count("probe.interrupted_fit_finished_before_the_fault")
+            if op.get("how") == "line":
+                # an exception at a seeded Python line somewhere inside the fit (likelihood evaluation, bound
+                # transformation, bookkeeping): the Ctrl-C / failing kernel analogue
+                tr = LineTracer(fire_at=op.get("pos", 3000), exc_type=InjectedInterrupt if op.get("pos", 0) % 7 == 0 else InjectedFault)
+                try:
+                    with tr:
+                        config.fit([self.data], [self.phsp], method=op.get("method", "BFGS"), maxiter=6, batch=self.spec["batch"], print_init_nll=False)
+                finally:
+                    sys.settrace(None)
+                self.log.count("probe.interrupted_fit_finished_before_the_fault")
+            else:
+                config.fit([self.data], [self.phsp], method=op.get("method", "BFGS"), maxiter=20, batch=self.spec["batch"], print_init_nll=False, callback=cb)
+                self.log.count("probe.interrupted_fit_finished_before_the_fault")
+        except (InjectedFault, InjectedInterrupt):
+            self.log.count("fault.fit_interrupted_at_line")
         except Abort:
             self.log.count("fault.fit_aborted_by_callback_exception")
         except Exception as e:
